@@ -45,8 +45,25 @@ func ZzC19Store() {
 		verifrt.Assume(verifrt.And(k >= 0, k < 64))
 		verifrt.ArmFault(k)
 	}
+	var err2 error
+	secondRan := false
 	err = walletdb.Update(w.db, func(tx walletdb.ReadWriteTx) error {
-		return migration.Upgrade(NewMigrationManager(tx.ReadWriteBucket(zzNS)))
+		ns := tx.ReadWriteBucket(zzNS)
+		mgr := NewMigrationManager(ns)
+		if err := migration.Upgrade(mgr); err != nil {
+			return err
+		}
+		if !faulty && v < latest {
+			// the store is current now: record a transaction, then upgrade
+			// again through the SAME manager value - nothing is pending any
+			// more, whatever the manager remembers from its first look
+			if err := w.insert(ns, 0, nil); err != nil {
+				return err
+			}
+			secondRan = true
+			err2 = migration.Upgrade(mgr)
+		}
+		return nil
 	})
 	hit := verifrt.FaultHit()
 	verifrt.ArmFault(-1)
@@ -66,6 +83,7 @@ func ZzC19Store() {
 		verifrt.Reach("current")
 	default:
 		verifrt.Assert(err == nil, "c19-upgrade-ok")
+		verifrt.Assert(!secondRan || err2 == nil, "c19-second-upgrade-ok")
 		var got uint32
 		must(w.view(func(ns walletdb.ReadBucket) error {
 			var e error
@@ -79,6 +97,11 @@ func ZzC19Store() {
 			w.l.status[t] = zzUnknown
 		}
 		w.l.tip = zzBaseHeight - 1
+		if secondRan {
+			// ... except the transaction recorded between the two upgrades
+			w.l.status[0] = zzUnmined
+			verifrt.Reach("second-upgrade-same-manager")
+		}
 		w.checkDetails("c19-history-dropped")
 		verifrt.Scope(func() { w.checkBalance("c19-balance-zero") })
 		verifrt.Reach("upgraded")
